@@ -1,60 +1,109 @@
 (** C18 — Authorization: no backend access for a denied instance name.
     Statements only; proofs are in Auth/AuthProofs.v. *)
-From BBS Require Import Common.Sx Common.ListX Auth.Auth Auth.AuthProofs Run.R18 Run.R18Proofs.
+From BBS Require Import Common.Sx Common.ListX Routing.Names Routing.Trie
+  Auth.Auth Auth.AuthProofs Run.R18 Run.R18Proofs.
+
+(** [nm] maps the name indices used by operations and scripted leaves to the
+    instance names (component lists) they stand for; every theorem holds for
+    every such map.  Leaves are scripted oracles ([Leaf]) or the static
+    authorizer of the policy instance_name_prefix ([Prefix ps]): the real trie
+    ([Routing/Trie.v], the C19 model of instance_name_trie.go) filled with the
+    allowed prefixes and asked with ContainsPrefix. *)
+
+(** The prefix leaf, operationally (Set every allowed prefix to 0 into an empty
+    trie, then the ContainsPrefix loop), grants exactly the names of which some
+    allowed prefix is a component-wise prefix — in particular not a strict
+    ancestor of an allowed prefix (an interior trie node), and not a name that
+    merely extends the last component as a string. *)
+Theorem prefix_leaf_spec : forall ps n,
+  prefix_answer ps n = if covered ps n then 0 else 7.
+Proof. exact prefix_answer_spec. Qed.
+Print Assumptions prefix_leaf_spec.
+
+Theorem covered_means_some_allowed_prefix_is_a_prefix : forall ps n,
+  covered ps n = true <-> exists p r, In p ps /\ n = p ++ r.
+Proof. exact covered_iff. Qed.
+Print Assumptions covered_means_some_allowed_prefix_is_a_prefix.
 
 (** The operational 'any' authorizer (the code's filtering loop, any nesting
-    depth, any list of names) computes, for every name, the first member
+    depth, any list of names, scripted and prefix leaves) computes, for every name, the first member
     verdict that is not a denial, else a denial. *)
-Theorem any_spec : forall t names, fst (authorize t names) = map (sem t) names.
+Theorem any_spec : forall nm t names, fst (authorize nm t names) = map (sem nm t) names.
 Proof. exact authorize_spec. Qed.
 Print Assumptions any_spec.
 
-Theorem any_granted_only_if_member_grants : forall ms n,
-  allowed (sem (Any ms) n) = true ->
-  exists pre m post, ms = pre ++ m :: post /\ allowed (sem m n) = true
-                     /\ Forall (fun m' => sem m' n = 7) pre.
+Theorem any_granted_only_if_member_grants : forall nm ms n,
+  allowed (sem nm (Any ms) n) = true ->
+  exists pre m post, ms = pre ++ m :: post /\ allowed (sem nm m n) = true
+                     /\ Forall (fun m' => sem nm m' n = 7) pre.
 Proof. exact any_granted_some_member. Qed.
 Print Assumptions any_granted_only_if_member_grants.
 
-Theorem any_grants_when_a_member_grants_and_none_fails : forall ms n,
-  (exists m, In m ms /\ allowed (sem m n) = true) ->
-  (forall m, In m ms -> sem m n = 0 \/ sem m n = 7) ->
-  sem (Any ms) n = 0.
+Theorem any_grants_when_a_member_grants_and_none_fails : forall nm ms n,
+  (exists m, In m ms /\ allowed (sem nm m n) = true) ->
+  (forall m, In m ms -> sem nm m n = 0 \/ sem nm m n = 7) ->
+  sem nm (Any ms) n = 0.
 Proof. exact any_grants_if_no_failure. Qed.
 Print Assumptions any_grants_when_a_member_grants_and_none_fails.
 
-Theorem any_reports_failure_instead_of_granting : forall pre m post n,
-  denied (sem m n) = false -> Forall (fun m' => sem m' n = 7) pre ->
-  sem (Any (pre ++ m :: post)) n = sem m n.
+Theorem any_reports_failure_instead_of_granting : forall nm pre m post n,
+  denied (sem nm m n) = false -> Forall (fun m' => sem nm m' n = 7) pre ->
+  sem nm (Any (pre ++ m :: post)) n = sem nm m n.
 Proof. exact any_failure_reported. Qed.
 Print Assumptions any_reports_failure_instead_of_granting.
 
-Theorem any_denies_when_all_deny : forall ms n,
-  (forall m, In m ms -> sem m n = 7) -> sem (Any ms) n = 7.
+Theorem any_denies_when_all_deny : forall nm ms n,
+  (forall m, In m ms -> sem nm m n = 7) -> sem nm (Any ms) n = 7.
 Proof. exact any_all_deny. Qed.
 Print Assumptions any_denies_when_all_deny.
 
-Theorem backend_reached_only_if_all_names_allowed : forall get put fm o,
-  forwarded (authorizing get put fm o) = true ->
-  forall n, In n (names_of o) -> sem (tree_of get put fm o) n = 0.
+Theorem backend_reached_only_if_all_names_allowed : forall nm get put fm o,
+  forwarded (authorizing nm get put fm o) = true ->
+  forall n, In n (names_of o) -> sem nm (tree_of get put fm o) n = 0.
 Proof. exact backend_only_if_all_allowed. Qed.
 Print Assumptions backend_reached_only_if_all_names_allowed.
 
-Theorem rejected_caller_receives_authorizer_error : forall get put fm o,
-  forwarded (authorizing get put fm o) = false ->
-  exists n, In n (names_of o) /\ code (authorizing get put fm o) = sem (tree_of get put fm o) n
-            /\ allowed (sem (tree_of get put fm o) n) = false.
+(** Authorizers made of instance_name_prefix leaves (and 'any') only, stated on
+    the allowed prefixes alone: the verdict is a grant iff the union of the
+    allowed prefixes covers the name, else PERMISSION_DENIED; the backend is
+    reached iff every involved name is covered; a rejection carries code 7. *)
+Theorem static_tree_grants_iff_covered : forall nm t,
+  static_only t = true ->
+  forall n, sem nm t n = if covered (all_prefixes t) (nm n) then 0 else 7.
+Proof. exact static_sem. Qed.
+Print Assumptions static_tree_grants_iff_covered.
+
+Theorem static_backend_reached_iff_all_names_covered : forall nm get put fm o,
+  static_only (tree_of get put fm o) = true ->
+  forwarded (authorizing nm get put fm o) =
+  forallb (fun n => covered (all_prefixes (tree_of get put fm o)) (nm n)) (names_of o).
+Proof. exact static_backend_iff_covered. Qed.
+Print Assumptions static_backend_reached_iff_all_names_covered.
+
+Theorem static_rejection_is_permission_denied : forall nm get put fm o,
+  static_only (tree_of get put fm o) = true ->
+  forwarded (authorizing nm get put fm o) = false ->
+  code (authorizing nm get put fm o) = 7.
+Proof. exact AuthProofs.static_rejection_is_permission_denied. Qed.
+Print Assumptions static_rejection_is_permission_denied.
+
+Theorem rejected_caller_receives_authorizer_error : forall nm get put fm o,
+  forwarded (authorizing nm get put fm o) = false ->
+  exists n, In n (names_of o) /\ code (authorizing nm get put fm o) = sem nm (tree_of get put fm o) n
+            /\ allowed (sem nm (tree_of get put fm o) n) = false.
 Proof. exact rejected_gets_authorizer_error. Qed.
 Print Assumptions rejected_caller_receives_authorizer_error.
 
-Theorem upload_buffer_passed_on_or_released : forall get put fm n,
-  let r := authorizing get put fm (OPut n) in
+Theorem upload_buffer_passed_on_or_released : forall nm get put fm n,
+  let r := authorizing nm get put fm (OPut n) in
   (forwarded r = true -> buf r = BufPassedOn) /\
   (forwarded r = false -> buf r = BufDiscarded).
 Proof. exact put_buffer_exactly_once. Qed.
 Print Assumptions upload_buffer_passed_on_or_released.
 
-(** The monitor used on implementation traces never fires on the model. *)
+(** The monitor used on implementation traces (clauses 1-5, for every input:
+    any trees with scripted and prefix leaves, any name alphabet) never fires
+    on the model. *)
 Theorem monitor_silent_on_model : forall inp, mon18 inp (run18 inp) = [].
 Proof. exact R18_monitor_silent. Qed.
 Print Assumptions monitor_silent_on_model.
@@ -63,6 +112,28 @@ Print Assumptions monitor_silent_on_model.
     denies, and a failure (code 13) that precedes a grant. *)
 Example any_example :
   let t := Any [Leaf 0 [7; 13; 7]; Any [Leaf 1 [7; 0; 7]; Leaf 2 [0; 0; 7]]] in
-  fst (authorize t [0; 1; 2]%nat) = [0; 13; 7]
-  /\ snd (authorize t [0; 1; 2]%nat) = [(0, [0; 1; 2]); (1, [0; 2]); (2, [0; 2])]%nat.
+  fst (authorize (fun _ => []) t [0; 1; 2]%nat) = [0; 13; 7]
+  /\ snd (authorize (fun _ => []) t [0; 1; 2]%nat) = [(0, [0; 1; 2]); (1, [0; 2]); (2, [0; 2])]%nat.
 Proof. vm_compute. split; reflexivity. Qed.
+
+(** Non-vacuity of the prefix leaf: allowed prefixes team/prod and a; the names
+    "", team, team/prod, team/prod/x, team/production, a/b.  Only the prefix
+    itself and its descendants are granted; the strict ancestor [team] (an
+    interior node of the trie) and the string-extension [team/production] are
+    denied.  In a mixed 'any' a scripted failure before the prefix leaf wins. *)
+Example prefix_example :
+  let team := [116;101;97;109]%N in let prod := [112;114;111;100]%N in
+  let production := [112;114;111;100;117;99;116;105;111;110]%N in
+  let a := [97]%N in let b := [98]%N in let x := [120]%N in
+  let names := [[]; [team]; [team; prod]; [team; prod; x]; [team; production]; [a; b]] in
+  let nm := fun i => nth i names [] in
+  let t := Prefix [[team; prod]; [a]] in
+  fst (authorize nm t [0; 1; 2; 3; 4; 5]%nat) = [7; 7; 0; 0; 7; 0]
+  /\ tval (build_trie [[team; prod]; [a]]) = -1
+  /\ (exists s, lookup (tch (build_trie [[team; prod]; [a]])) team = Some s /\ tval s = -1)
+  /\ fst (authorize nm (Any [Leaf 0 [7; 13; 7]; t; Prefix []]) [0; 1; 2; 3]%nat) = [7; 13; 0; 0]
+  /\ forwarded (authorizing nm t t t (OFindMissing [2; 3; 5]%nat)) = true
+  /\ forwarded (authorizing nm t t t (OFindMissing [2; 1; 5]%nat)) = false
+  /\ mon18 (L [L [A 2; L [L [A 116; A 47; A 112]]]; L []; L []; L [A 0; A 0]; L [L [A 116]]])
+            (L [A 1; A 0; A 0; L []]) = [1; 4].
+Proof. vm_compute. repeat split; try reflexivity. eexists; split; reflexivity. Qed.
